@@ -25,6 +25,8 @@ VARIANTS = {
     "asan": dict(cfg="sym", flags=["-O1", "-fsanitize=address"], inst=[], link=["-fsanitize=address"], simdefs=[]),
     "race": dict(cfg="sym", flags=["-O1", "-fsanitize=address"], inst=SANCOV, link=["-fsanitize=address"], simdefs=["-DSIM_RACE=1"]),
     "nosym": dict(cfg="nosym", flags=["-O1"], inst=[], link=[], simdefs=[]),
+    # diagnostic only (never in a verdict): valgrind-friendly build, no operator new replacement, DWARF 4
+    "vg": dict(cfg="sym", flags=["-O1", "-gdwarf-4"], inst=[], link=[], simdefs=["-DSIM_NO_LEDGER=1"]),
 }
 CFGS = {
     "sym": ["-DYACLIB_FAULT=FIBER", "-DYACLIB_FLAGS=CORO", "-DYACLIB_CXX_STANDARD=20"],
